@@ -36,7 +36,7 @@ MAP_MODES = ["seq", "thread", "process", "controlled", "async-thread", "async-co
 
 def plan(tier, seed):
     n = 80 if tier == "quick" else 800
-    ex = [0, 3] if tier == "quick" else [0, 1, 2, 3]
+    ex = [0, 2, 3] if tier == "quick" else [0, 1, 2, 3]
     descs = []
     for i in range(n):
         descs.append({"kind": "map", "seed": seed, "i": i, "exc": [ex[(i + k) % len(ex)] for k in range(2 if tier == "quick" else 4)]})
@@ -259,8 +259,10 @@ def inject_map(v, case, env, exp_calls, fname, ext_idx, term, spec, mode, scratc
 
 
 def run_map_case(v, desc, scratch):
-    case = mapgen.case_from_seed(desc["seed"], desc["i"], max_funcs=3)
+    case = mapgen.case_from_seed(desc["seed"], desc["i"], max_funcs=3, allow_bound=True)
     env, exp_calls = mapgen.oracle(case)
+    if any(f.get("bound") for f in case["funcs"]):
+        v.count("map_cases_with_bound_values")
     # only cases whose uninjected sequential run matches the oracle (C01's business otherwise)
     try:
         with quiet():
@@ -415,14 +417,16 @@ def finalize(agg, tier, seed):
     c = agg.counters
     floors = []
     for mode in MAP_MODES + ["call", "run", "full"]:
-        for spec in ("ValueError", "ProbeError"):
-            if c.get(f"injections:{mode}:{spec}", 0) < 50:
+        for spec in ("ValueError", "ProbeError", "Bare"):
+            if c.get(f"injections:{mode}:{spec}", 0) < (20 if spec == "Bare" else 50):
                 floors.append(f"injections:{mode}:{spec} = {c.get(f'injections:{mode}:{spec}', 0)} (< 50)")
     for pos in ("first", "middle", "last"):
         if c.get(f"failing_index_{pos}", 0) < 200:
             floors.append(f"failing index {pos}: {c.get(f'failing_index_{pos}', 0)} (< 200)")
     if c.get("snapshots_checked", 0) < 500:
         floors.append("fewer than 500 snapshots checked")
+    if c.get("map_cases_with_bound_values", 0) < 10:
+        floors.append("fewer than 10 map cases with bound values")
     if c.get("second_failures_on_same_object", 0) < 200:
         floors.append("fewer than 200 second failures on the same pipeline object")
     if c.get("completed_elements_checked", 0) < 200:
